@@ -2054,6 +2054,11 @@ FLOWFUNCS = [
                 (r"(?s)Call \{.*?_ph: PhantomData,\s*\}", "()")],
          params=[("analyzed", "val", "bool", None), ("skip_method_body_check", "mutval", "bool", None), ("cur_writer", "mutval", "writer", None)],
          functions={"BodyWriter::new_chunked": "new_chunked"}, rust_ret="()"),
+    # src/client/flow.rs: Flow<SendBody>::calculate_max_input -- the whole output for a sized body, body.rs calculate_max_input for a chunked one
+    dict(coq="gen_flow_calculate_max_input", file="src/client/flow.rs", impl=r"impl<B>\s+Flow<B,\s*SendBody>", rust="calculate_max_input", kind="plain",
+         subst=[(r"let call = self\.inner\.call\.as_with_body_mut\(\);", ""), (r"call\.is_chunked\(\)", "is_chunked")],
+         params=[("is_chunked", "val", "bool", None), ("output_len", "val", "N", None)],
+         functions={"calculate_max_input": "gen_calculate_max_input"}, rust_ret="usize"),
     # src/ext.rs: HeaderIterExt::has (the test behind `Connection: close` and `Expect: 100-continue`): some field with that name has that value
     dict(coq="gen_headers_has", file="src/ext.rs", impl=None, rust="has", kind="plain", bytes_vars=["key", "value"],
          subst=[(r"self\s*\.filter", "headers.iter().filter")],
